@@ -393,6 +393,9 @@ def run(chk, repo, tier):
                               witness='a compartment with a bolus and an infusion attached in different order along two '
                                       'routes: a == b but {a, b} has two elements')
 
+    run_m9(chk, repo)
+    run_m10(chk, repo)
+
     # ---- M4
     n4 = 0
     for c in repo.all_classes():
@@ -547,3 +550,89 @@ def _entry_path(aa, f, is_public, limit=6):
         out.append(end)
         end = seen[end]
     return out
+
+
+def run_m9(chk, repo):
+    """no accessor hands out a mutable container that the object keeps in an attribute (a memo, a cache): the caller's
+    `d = obj.inits; d.update(..)` would then change the object and every object that shares it"""
+    M9 = chk.rule('M9', 'model-layer classes: no method or property returns a dict / list / set stored in an attribute of self '
+                        '(a copy or a freshly built container is returned)', floor=20)
+    MUT = (ast.Dict, ast.List, ast.Set, ast.DictComp, ast.ListComp, ast.SetComp)
+    n = 0
+    for c in repo.all_classes():
+        if not c.module.name.startswith(('pharmpy.model.', 'pharmpy.workflows', 'pharmpy.tools.mfl')) \
+                or c.module.name.startswith('pharmpy.model.external'):
+            continue
+        n += 1
+        mutattrs = {}
+        for f in dict.values(c.methods):
+            for a in ast.walk(f.node):
+                if isinstance(a, ast.Assign):
+                    for t in a.targets:
+                        if isinstance(t, ast.Attribute) and isinstance(t.value, ast.Name) and t.value.id == 'self' and (
+                                isinstance(a.value, MUT) or (isinstance(a.value, ast.Call)
+                                                             and dotted(a.value.func) in ('dict', 'list', 'set'))):
+                            mutattrs.setdefault(t.attr, a)
+        for f in dict.values(c.methods):
+            if f.name in ('__init__', '__new__'):
+                continue
+            for ret in ast.walk(f.node):
+                if isinstance(ret, ast.Return) and isinstance(ret.value, ast.Attribute) and isinstance(ret.value.value, ast.Name) \
+                        and ret.value.value.id == 'self' and ret.value.attr in mutattrs:
+                    chk.violation(M9, c.module.rel, f.qualname, f'return self.{ret.value.attr}',
+                                  f'`self.{ret.value.attr}` is a mutable container built by this class '
+                                  f'(`{unparse(mutattrs[ret.value.attr])[:60]}`) and is handed out as it is: a caller that '
+                                  f'updates the result changes this object', line=ret.lineno,
+                                  witness='d = model.parameters.inits; d.update(new) (set_initial_estimates with '
+                                          'move_est_close_to_bounds=True does that): the input model reports the new values')
+    chk.instance(M9, f'{n} classes of the model / workflow layer examined for accessors that return a stored mutable container',
+                 n=n)
+
+
+def run_m10(chk, repo):
+    """Model._canonicalize_statements: a symbol used by statement i must be defined by a statement STRICTLY before i; a
+    statement that is the first definition of a symbol it uses (X = X*2) is refused"""
+    from sa import iterspace as IS
+    M10 = chk.rule('M10', '_canonicalize_statements: "defined before use" excludes the statement itself (slice [:i], or an index '
+                          'comparison that raises for definition index == i)', floor=1)
+    mc = repo.cls('pharmpy.model.model.Model')
+    f = mc.methods.get('_canonicalize_statements')
+    if f is None:
+        raise AnalysisError('Model._canonicalize_statements not found')
+    n = 0
+    for L in [x for x in ast.walk(f.node) if isinstance(x, ast.For) and isinstance(x.iter, ast.Call)
+              and dotted(x.iter.func) == 'enumerate' and isinstance(x.target, ast.Tuple) and isinstance(x.target.elts[0], ast.Name)]:
+        iv = L.target.elts[0].id
+        for I in [x for x in ast.walk(L) if isinstance(x, ast.If) and any(isinstance(r, ast.Raise) for r in x.body)]:
+            tn = {x.id for x in ast.walk(I.test) if isinstance(x, ast.Name)}
+            if iv not in tn:
+                continue
+            sl = [s_ for s_ in ast.walk(I.test) if isinstance(s_, ast.Subscript) and isinstance(s_.slice, ast.Slice)]
+            if sl:
+                n += 1
+                ok = all(s_.slice.lower is None and isinstance(s_.slice.upper, ast.Name) and s_.slice.upper.id == iv for s_ in sl)
+                chk.instance(M10, f'`if {unparse(I.test)[:60]}: raise`: looks at the statements before {iv} only: {ok}')
+                if not ok:
+                    chk.violation(M10, mc.module.rel, f.qualname, unparse(I.test)[:90],
+                                  'the statement itself (or later ones) counts as an earlier definition', line=I.lineno,
+                                  witness='Model.replace(statements=[X = X*2, ...]) is accepted although X is not defined before')
+                continue
+            others = sorted(tn - {iv})
+            if len(others) != 1 or not isinstance(I.test, ast.Compare):
+                continue
+            o = others[0]
+            try:
+                res = {d: bool(IS.ev_x(I.test, {iv: 5, o: 5 + d})) for d in (-1, 0, 1)}
+            except Exception:
+                continue
+            n += 1
+            ok = res == {-1: False, 0: True, 1: True}
+            chk.instance(M10, f'`if {unparse(I.test)[:60]}: raise` for definition index i-1, i, i+1: {res}: {ok}')
+            if not ok:
+                chk.violation(M10, mc.module.rel, f.qualname, unparse(I.test)[:90],
+                              f'raises for (definition index - statement index) in {[d for d, v in res.items() if v]}; it must raise '
+                              f'for 0 and +1 and not for -1', line=I.lineno,
+                              witness='CL = TVCL; CL = CL*EXP(ETA) after remove_iiv + reassign becomes CL = CL, which is accepted: '
+                                      'the model uses a symbol that no earlier statement defines')
+    if n == 0:
+        raise AnalysisError('M10: the "defined before use" test of _canonicalize_statements was not recognised')
